@@ -80,7 +80,10 @@ theorem disjoint_succ_some (fuel : Nat) (gs : List (Group K)) (m k : Nat) (hm : 
     (h : firstPair gs = some (m, k)) :
     disjoint (fuel + 1) gs = disjoint fuel ((gs.set m (mergeGroups gs[m] gs[k])).eraseIdx k) := by
   conv => lhs; unfold disjoint
-  simp only [h, List.getElem?_eq_getElem hm, List.getElem?_eq_getElem hk, mergeGroups]
+  -- the recognised step constants of the current source: keep m, append n, recompute m, pop n
+  have hst : Gen.disjointStep = (0, 1, 0, 1) := rfl
+  simp only [h, hst, if_true, Int.reduceEq, if_false, List.getElem?_eq_getElem hm, List.getElem?_eq_getElem hk,
+    List.getElem?_set_self hm, List.set_set, mergeGroups]
 
 /-- induction principle: a predicate that holds initially and survives every merge step (of an intersecting pair
 `m < k`) holds for the result of `_disjoint` -/
